@@ -38,6 +38,20 @@ def base_dups(v=0):
                     extra_e=empty_list)
 
 
+def base_container(n=2):
+  """A base configuration that is a plain dict of Configs (not a Buildable)."""
+  LOG.append(('base_container', n))
+  return {f'm{i}': fdl.Config(kinds.two, x=i, y=[i]) for i in range(n)}
+
+
+def add_member(cfg, name='extra'):
+  """An immutable-style fiddler: returns a NEW top-level container."""
+  LOG.append(('add_member', name))
+  new = dict(cfg)
+  new[name] = fdl.Config(kinds.three, a=name)
+  return new
+
+
 def base2():
   LOG.append(('base2',))
   return fdl.Config(kinds.three, a=fdl.Config(kinds.two, x=0), b=[0, 0], c=None)
